@@ -9,6 +9,8 @@ def step (line : String) : String :=
   | "c15" :: args => Registry.run args
   | "c12" :: args => TimeDec.run args
   | "c02" :: args => PFile.runC02 args
+  | "c03" :: args => PFile.runC03 args
+  | "c04" :: args => PFile.runC04 args
   | _ => "err bad-stream"
 
 partial def loop (h : IO.FS.Stream) : IO Unit := do
